@@ -2,7 +2,7 @@
 import core
 import gen
 from core import Some
-from props.common import default_encode, default_decode
+from props.common import thorough_aux, default_encode, default_decode
 
 PROP = 'C15'
 BIN = 'c15'
@@ -79,10 +79,11 @@ def requests(cfg, rng, n, tier, part, nparts, st):
                 yield 'sl', (bytes(L - 1) + bytes([0x80]),)
                 yield 'sl', (bytes([0xff]) * (L - 1) + bytes([0x7f]),)
                 yield 'sl', (bytes([0x7f]) + bytes([0xff]) * (L - 1),)
-    for _ in range(n * 3 // 4):
-        yield 'sl', (gen_slice(cfg, rng)[0],)
-    for _ in range(n // 4):
-        yield 'en', (gen.value(cfg, rng),)
+    for k in range(n):
+        if k % 4 == 3:
+            yield 'en', (gen.value(cfg, rng),)
+        else:
+            yield 'sl', (gen_slice(cfg, rng)[0],)
 
 
 def model(cfg, ctx, group, args):
@@ -136,4 +137,11 @@ REQUIRED = ['empty slice', 'value does not fit (excess bytes are not pure paddin
 
 
 def floors(st, tier):
-    return ['class %r never observed' % c for c in REQUIRED if st['classes'].get(c, 0) == 0]
+    req = REQUIRED + (['endianness helpers (big-endian target)'] if tier == 'thorough' else [])
+    out = ['class %r never observed' % c for c in req if st['classes'].get(c, 0) == 0]
+    if tier == 'thorough' and st['ops'].get('to_be_bytes', 0) == 0:
+        out.append('the nightly-only *_bytes methods were never observed')
+    return out
+
+
+extra_passes = thorough_aux('props.c15', ('miri-be', 'nightly'))
